@@ -525,20 +525,21 @@ def c02Step (sin sobs : Json) : Option String :=
   let storedInbox (u : Iri) : Option Iri := match evs.find? (fun e => e.name == "inboxForActor" && (e.args.getD 0 Json.null).getStr?.toOption == some u) with
     | some e => (jget e.resp "ok").getStr?.toOption
     | none => (storedTruth.getObjValAs? String u).toOption
-  let found := r.filterMap storedInbox
   let rest := r.filter fun u => (storedInbox u).isNone
   let depth : Int := depthOf evs
   if depth ≤ 0 then none else
-  let actors := reachActors facts G depth.toNat rest
-  let remote := actors.filterMap inboxOfDoc
-  if remote.length != actors.length then none else   -- an actor document without inbox: the delivery fails (C11)
   let owner := (evs.find? fun e => e.name == "actorForOutbox").bind fun e => (jget e.resp "ok").getStr?.toOption
-  let ownInbox : Option Iri := owner.bind fun o => (evs.findSome? fun e =>
-    if e.name == "get" && (e.args.getD 0 Json.null).getStr?.toOption == some o then inboxOfDoc (J.norm (toJ (jget e.resp "ok"))) else none)
-  match ownInbox with
+  let ownDoc : Option J := owner.bind fun o => (evs.findSome? fun e =>
+    if e.name == "get" && (e.args.getD 0 Json.null).getStr?.toOption == some o && !isErr e.resp then some (J.norm (toJ (jget e.resp "ok"))) else none)
+  match ownDoc with
   | none => none
-  | some own =>
-  let expect := sortDedup ((found ++ remote).filter fun k => k != own)
+  | some meDoc =>
+  -- the statement of theorem `prepare_det`, evaluated on the ground truth (`none`: the delivery must fail — an actor
+  -- document without inbox; that is C11's business)
+  match recipientsSpec facts G storedInbox depth.toNat meDoc A with
+  | none => none
+  | some want =>
+  let expect := sortDedup want
   if sortDedup got != expect then some s!"recipients {got} are not the addressed inboxes {expect}"
   else if got.length != (sortDedup got).length then some s!"recipients contain duplicates: {got}"
   else if derefs.any (fun d => isPublic d.1 && r0.contains d.1) then some "the Public collection was dereferenced"
